@@ -611,6 +611,16 @@ func (x *Exec) addrOf(e *ast.UnaryExpr, st *State) Value {
 			}
 		}
 	}
+	if id, ok := unparen(e.X).(*ast.Ident); ok {
+		if v, ok := x.info.ObjectOf(id).(*types.Var); ok && v.Pkg() != nil && v.Parent() != v.Pkg().Scope() {
+			// &local of a slice, map, ...: whoever holds the pointer may assign
+			// the variable; it is unknown after every later call
+			if x.escaped == nil {
+				x.escaped = map[*types.Var]bool{}
+			}
+			x.escaped[v] = true
+		}
+	}
 	x.abstr["address-of "+x.src(e)] = true
 	p := x.freshTerm("addr", IntSort)
 	st.add(Neq(p, IntC(0)))
